@@ -49,9 +49,10 @@ func fieldOfLoad(v ssa.Value, spill *ssa.Alloc, param *ssa.Parameter) (string, b
 
 func checkC11(c *Ctx) {
 	c.Rule("EMPH-S", "Saved-index staleness: openersBottom holds indices into the delimiter stack. A forward dataflow over processEmphasis maintains the invariant \"every saved bound <= V\" for an SSA value V (established by a loop, or a helper, that stores V into every element; kept by storing V into one element, by V growing, and across loop-carried variables). A deleteDelimiterStack call whose low bound is not known to be >= V breaks it, and no element of openersBottom may be read before the bounds have been re-based.")
-	c.Assume("flanking classification, the rule-of-3 predicate itself, matching order and tree surgery (the algorithm proper) are value-level and not decided")
+	c.Assume("the rule-of-3 predicate itself, matching order and tree surgery (the algorithm proper) are value-level and not decided")
 	ruleEmphKX(c)
 	ruleEmphS(c)
+	ruleEmphFlank(c)
 }
 
 type emphState struct {
